@@ -39,7 +39,7 @@ COLS0 = ["a", "b", "c"]
 ROWS0 = [(1, 2.5, "x"), (2, 3.5, "y"), (3, 4.5, "z")]
 INSERT_ROWS = [(4, 5.5, "w"), (2, 9.5, "q"), (4, 7.5, "v"), (0, 1.5, "p")]
 BATCHES = [[(5, 6.5, "u"), (5, 8.5, "t")], [(6, 7.5, "s"), (0, 0.5, "o")]]
-INDEX_CHOICES = [["a"], ["a", "c"]]
+INDEX_CHOICES = [["a"], ["a", "c"], ["c", "a"]]      # incl. key columns in another order than the table's
 READ_COLS = ["a", "c", "nope"]
 NEWCOL = "d"
 NEWVALS = [10, 20, 30, 40, 50, 60, 70, 80, 90, 100]
